@@ -86,7 +86,7 @@ Section Events.
     - pose proof (process_ev p t (set_found (set_started st1) stack (negb (p_mayend p)) (p_stopnm p || l_stopnm (set_started st1)))) as Hp.
       cbn [l_stash set_found set_started] in Hp. rewrite E1 in Hp. exact Hp.
     - cbn. destruct (l_stopnm st1); cbn; rewrite E1; [apply (evs_one (SSave t))|apply evs_refl].
-    - cbn. destruct (l_stopnm st1); cbn; rewrite E1; [apply (evs_one (SPush t))|apply evs_refl].
+    - cbn. rewrite E1. apply evs_refl.
   Qed.
 
   Lemma loop_ev n st r : loop o sub postof n st = Ret r -> evs_to (l_stash st) (r_stash r).
